@@ -9,11 +9,12 @@ import JrsVerif.Proofs.StdArr
 import JrsVerif.Proofs.StdSet
 import JrsVerif.Proofs.StdSort
 import JrsVerif.Proofs.StdUniq
+import JrsVerif.Proofs.StdArrHof2
 
 namespace JrsVerif.StdArr
 open Std
 
-variable {α κ : Type}
+variable {α β κ : Type}
 
 /-! ### 1. sort -/
 
@@ -169,5 +170,256 @@ theorem join_spec (sep : List α) (items : List (Option (List α))) :
   joinM_eq sep items
 
 example : joinM [0] [none, some [1], none, some [], some [2, 3], none] = [1, 0, 0, 2, 3] := by decide
+
+/-! ### 5. round 3 — the remaining loops of arrays.rs / math.rs / sort.rs
+
+Array arguments are lists of lazily evaluated elements (`none` = evaluating the element raises);
+callbacks may fail.  `…Loop`/`…M` are the Rust loops, `…Spec` the documented meaning. -/
+
+/-- C10.5a `builtin_foldl` / `builtin_foldr` (accumulator loop, `iter().rev()`): every element is
+    evaluated, then the result is the left / right fold of the callback; any failure is an error. -/
+theorem fold_spec (f : β → α → Option β) (g : α → β → Option β) (init : β) (xs : List (Option α)) :
+    foldlLoop f init xs = (evalAll xs).bind (foldlSpec f init) ∧
+    foldrLoop g init xs = (evalAll xs).bind (foldrSpec g init) :=
+  ⟨foldlLoop_eq f init xs, foldrLoop_eq g init xs⟩
+
+example : foldlLoop (fun (a : List Nat) (x : Nat) => some (a ++ [x])) [] [some 1, some 2, some 3] = some [1, 2, 3] ∧
+    foldrLoop (fun (x : Nat) (a : List Nat) => some (a ++ [x])) [] [some 1, some 2, some 3] = some [3, 2, 1] ∧
+    foldlLoop (fun (a : List Nat) (x : Nat) => some (a ++ [x])) [] [some 1, none] = none := by decide
+
+/-- the `Either![ArrValue, IStr]` dispatch: a string is folded as the array of its characters, any
+    other value is rejected, and on arrays the loop is the documented recursion -/
+theorem fold_dispatch_spec (f : V → V → Option V) (init : V) :
+    (∀ xs, Model.foldl f (Idx.ofV (.arr xs)) init = foldlSpec f init xs) ∧
+    (∀ s, Model.foldl f (Idx.ofV (.str s)) init = foldlSpec f init (chars s)) ∧
+    (∀ xs, Model.foldr f (Idx.ofV (.arr xs)) init = foldrSpec f init xs) ∧
+    (∀ s, Model.foldr f (Idx.ofV (.str s)) init = foldrSpec f init (chars s)) ∧
+    Model.foldl f (Idx.ofV .null) init = none ∧ Model.foldr f (Idx.ofV (.num 1)) init = none := by
+  refine ⟨fun xs => ?_, fun s => ?_, fun xs => ?_, fun s => ?_, rfl, rfl⟩
+  · simp [Model.foldl, Idx.ofV, foldlLoop_eq]
+  · simp [Model.foldl, Idx.ofV, charsL, foldlLoop_eq]
+  · simp [Model.foldr, Idx.ofV, foldrLoop_eq]
+  · simp [Model.foldr, Idx.ofV, charsL, foldrLoop_eq]
+
+/-- C10.5b `builtin_any` / `builtin_all` / `builtin_member` equal "find the first element that does
+    not have the neutral verdict": none → neutral answer, a deciding one → its answer, anything
+    else (failing element, non-boolean) → error. -/
+theorem any_all_spec (t : α → Option Bool) (eq : α → α → Option Bool) (x : α) (xs : List (Option α)) :
+    anyLoop t xs = anySpec t xs ∧ allLoop t xs = allSpec t xs ∧
+    memberLoop eq x xs = anySpec (fun y => eq y x) xs :=
+  ⟨anyLoop_eq t xs, allLoop_eq t xs, by rw [memberLoop_eq_anyLoop, anyLoop_eq]⟩
+
+/-- C10.5c short circuit: once the deciding element is met the elements after it are irrelevant —
+    they may fail to evaluate or be non-booleans; and the neutral answer requires every element to
+    evaluate to the neutral value. -/
+theorem any_all_shortcircuit (t : α → Option Bool) (pre rest rest' : List (Option α)) (d : Option α) :
+    ((∀ e ∈ pre, verdict t e = some false) → verdict t d ≠ some false →
+      anyLoop t (pre ++ d :: rest) = anyLoop t (pre ++ d :: rest')) ∧
+    ((∀ e ∈ pre, verdict t e = some true) → verdict t d ≠ some true →
+      allLoop t (pre ++ d :: rest) = allLoop t (pre ++ d :: rest')) ∧
+    (∀ xs, anyLoop t xs = some false ↔ ∀ e ∈ xs, verdict t e = some false) ∧
+    (∀ xs, allLoop t xs = some true ↔ ∀ e ∈ xs, verdict t e = some true) :=
+  ⟨fun h1 h2 => by rw [anyLoop_decided t pre rest d h1 h2, anyLoop_decided t pre rest' d h1 h2],
+   fun h1 h2 => by rw [allLoop_decided t pre rest d h1 h2, allLoop_decided t pre rest' d h1 h2],
+   anyLoop_false_iff t, allLoop_true_iff t⟩
+
+example : anyLoop asBoolV [some (.bool false), some (.bool true), none, some (.num 1)] = some true ∧
+    allLoop asBoolV [some (.bool true), some (.bool false), none] = some false ∧
+    anyLoop asBoolV [some (.bool false), none, some (.bool true)] = none ∧
+    memberLoop (fun a b => some (eqV a b)) (.num 2) [some (.num 1), some (.num 2), none] = some true := by
+  decide
+
+/-- C10.5d `builtin_find` / `builtin_count` (full pass, `enumerate` counter, `out.push`): the indices
+    (resp. number) of the elements whose test is true, provided every element and test evaluates -/
+theorem find_count_spec (t : α → Option Bool) (xs : List (Option α)) :
+    findLoop t 0 [] xs = findSpec t xs ∧ countLoop t 0 xs = countSpec t xs := by
+  refine ⟨?_, ?_⟩
+  · rw [findLoop_eq]; simp [findSpec]
+  · rw [countLoop_eq]; simp [countSpec]
+
+example : findLoop (fun (y : Nat) => some (y == 7)) 0 [] [some 7, some 1, some 7] = some [0, 2] ∧
+    countLoop (fun (y : Nat) => some (y == 7)) 0 [some 7, some 1, some 7] = some 2 := by decide
+
+/-- C10.5e `ArrValue::filter` — eager attempt, `break 'eager` at the first failing element, second
+    pass over the thunks — keeps exactly the elements on which the predicate says `true`, whichever
+    path runs; a failing element survives as long as the predicate does not force it. -/
+theorem filter_spec (p : Option α → Option Bool) (xs : List (Option α)) :
+    filterM p xs = filterSpec p xs :=
+  filterM_eq p xs
+
+/-- C10.5f `builtin_filter_map` = filter, then a lazy map over the kept thunks -/
+theorem filterMap_spec (p : Option α → Option Bool) (g : Option α → Option β) (xs : List (Option α)) :
+    filterMapM p g xs = (filterSpec p xs).map (fun ys => ys.map g) := by
+  simp [filterMapM, filterM_eq]
+
+example : filterM (fun (_ : Option Nat) => some true) [some 1, none, some 3] = some [some 1, none, some 3] ∧
+    filterM (fun (e : Option Nat) => e.map (· > 1)) [some 1, some 2, some 3] = some [some 2, some 3] ∧
+    filterM (fun (e : Option Nat) => e.map (· > 1)) [some 1, none] = none := by decide
+
+/-- C10.5g `mapWithIndex`: element `i` is `f(i, thunk i)` (index passed as `u32`) -/
+theorem mapWithIndex_spec (f : Nat → Option α → Option β) (xs : List (Option α))
+    (h : xs.length ≤ 2 ^ 32) :
+    mapIdxLoop f 0 xs = (xs.zipIdx 0).map (fun p => f p.2 p.1) :=
+  mapIdxLoop_eq f 0 xs (by omega)
+
+example : mapIdxLoop (fun i (e : Option Nat) => e.map (· + i)) 0 [some 10, none, some 10] =
+    [some 10, none, some 12] := by decide
+
+/-- C10.5h `builtin_flatmap` (both the array and the string branch): every element evaluated, every
+    call succeeds with null or a sequence, result = concatenation of the non-null pieces -/
+theorem flatMap_spec (f : α → Option (Option (List β))) (xs : List (Option α)) :
+    flatMapLoop f [] xs = flatMapSpec f xs := by
+  rw [flatMapLoop_eq]; cases flatMapSpec f xs <;> simp
+
+example : flatMapLoop (fun (n : Nat) => if n = 0 then some none else some (some [n, n])) []
+    [some 1, some 0, some 2] = some [1, 1, 2, 2] := by decide
+
+/-- C10.5i `builtin_min_array` / `builtin_max_array` (`is_empty` guard, `onEmpty` thunk forced only
+    for the empty array, `array_top1` scan): for a total key into a total order the scan equals
+    "keep the best so far, replace it only by a strictly better one". -/
+theorem minmax_spec {key : α → Option κ} {cmp : κ → κ → Option Ordering} {k : α → κ}
+    {ord : κ → κ → Ordering} (hk : ∀ x, key x = some (k x)) (hc : ∀ p q, cmp p q = some (ord p q))
+    (want : Ordering) (onEmpty onEmpty' : Option (Option α)) (m : α) (r : List α) :
+    top1M key cmp want [] onEmpty = evalOnEmpty onEmpty ∧
+    top1M key cmp want ((m :: r).map some) onEmpty = some (top1Spec k ord want m r) ∧
+    (∀ xs : List (Option α), xs ≠ [] → top1M key cmp want xs onEmpty = top1M key cmp want xs onEmpty') := by
+  refine ⟨rfl, ?_, ?_⟩
+  · rw [top1M_eq hk hc]; simp [evalAll]
+  · intro xs hxs
+    cases xs with
+    | nil => exact absurd rfl hxs
+    | cons e r => cases e <;> rfl
+
+/-- C10.5j ... and that scan returns the FIRST minimal element (`minArray`): everything before it
+    has a strictly greater key, nothing after it a strictly smaller one; `maxArray` symmetrically. -/
+theorem minmax_first_extremum {ord : κ → κ → Ordering} [TransCmp ord] (k : α → κ) (m : α) (r : List α) :
+    (∃ pre post, m :: r = pre ++ top1Spec k ord .lt m r :: post ∧
+      (∀ y ∈ pre, ord (k (top1Spec k ord .lt m r)) (k y) = .lt) ∧
+      (∀ y ∈ post, ord (k y) (k (top1Spec k ord .lt m r)) ≠ .lt)) ∧
+    (∃ pre post, m :: r = pre ++ top1Spec k ord .gt m r :: post ∧
+      (∀ y ∈ pre, ord (k (top1Spec k ord .gt m r)) (k y) = .gt) ∧
+      (∀ y ∈ post, ord (k y) (k (top1Spec k ord .gt m r)) ≠ .gt)) := by
+  refine ⟨?_, ?_⟩
+  · simpa using top1Spec_first_min (ord := ord) k r m [] [] (by simp) (by simp)
+  · rw [top1Spec_gt_eq_flip]
+    obtain ⟨pre, post, h1, h2, h3⟩ :=
+      top1Spec_first_min (ord := fun a b => ord b a) k r m [] [] (by simp) (by simp)
+    refine ⟨pre, post, by simpa using h1, fun y hy => ?_, fun y hy => ?_⟩
+    · exact OrientedCmp.gt_of_lt (h2 y hy)
+    · intro hgt; exact h3 y hy (OrientedCmp.lt_of_gt hgt)
+
+example : top1M (fun (p : Int × String) => some p.1) (fun a b => some (compare a b)) .lt
+      [some (2, "a"), some (1, "b"), some (1, "c")] none = some (1, "b") ∧
+    top1M (fun (p : Int × String) => some p.1) (fun a b => some (compare a b)) .gt
+      [some (2, "a"), some (1, "b"), some (2, "c")] (some none) = some (2, "a") ∧
+    top1M (fun (p : Int × String) => some p.1) (fun a b => some (compare a b)) .gt
+      [] (some (some (0, "dflt"))) = some (0, "dflt") := by decide
+
+/-- C10.5k `builtin_sum` (`fold(0.0, +)` — not `Iterator::sum`, whose empty value is `-0.0`) -/
+theorem sum_spec (ns : List Int) : sumLoop 0 ns = ns.sum := by
+  rw [sumLoop_eq]; omega
+
+/-- C10.5l `builtin_range`: the `to < from` guard and `RangeArray`'s wrapping `usize` length and
+    `nth` give `[from, from+1, …, to]` for all `i32` bounds, without a `length checked` panic -/
+theorem range_spec (a b : Int) (ha : inI32 a = true) (hb : inI32 b = true) :
+    rangeM a b = some (rangeSpec a b) :=
+  rangeM_eq a b ha hb
+
+example : rangeM (-2) 1 = some [-2, -1, 0, 1] ∧ rangeM 3 2 = some [] ∧ rangeM 3 1 = some [] ∧
+    rangeM 0 2147483648 = none := by decide
+
+/-- C10.5m `builtin_repeat`, array branch (`usize` count, `checked_mul`, `index % data.len()`) is
+    `count` copies in a row whenever the total length fits `usize` -/
+theorem repeat_spec (xs : List α) (n : Int) (hn : 0 ≤ n) (hn2 : n < 18446744073709551616)
+    (hlen : xs.length * n.toNat < 18446744073709551616) :
+    repeatArrM xs n = some (Spec.repeatL xs n.toNat) ∧ repeatArrM xs (-1 - n) = none := by
+  refine ⟨repeatArrM_eq xs n hn hn2 hlen, ?_⟩
+  unfold repeatArrM
+  rw [if_pos (by omega)]
+
+example : repeatArrM [1, 2] 3 = some [1, 2, 1, 2, 1, 2] ∧ repeatArrM ([] : List Nat) 5 = some [] ∧
+    repeatArrM [1] (-1) = none := by decide
+
+/-- C10.5n `builtin_make_array`: bounds `0 ≤ sz ≤ i32::MAX`, the `sz == 0` and the constant-function
+    shortcuts change nothing — the result is `[func(0), …, func(sz-1)]` (lazily) -/
+theorem makeArray_spec (sz : Int) (f : Int → Option β) (trivial : Option β)
+    (h0 : 0 ≤ sz) (h1 : sz ≤ 2147483647) (htriv : ∀ t, trivial = some t → ∀ i, f i = some t) :
+    makeArrayM sz f trivial = some (makeArraySpec sz.toNat f) :=
+  makeArrayM_eq sz f trivial h0 h1 htriv
+
+example : makeArrayM 3 (fun i => some (i * 2)) none = some [some 0, some 2, some 4] ∧
+    makeArrayM 2 (fun _ => some (7 : Int)) (some 7) = some [some 7, some 7] ∧
+    makeArrayM (-1) (fun i => some i) none = none := by decide
+
+/-- C10.5o `IndexableVal::slice`, string branch (`skip/take/step_by`, unclamped positive positions,
+    `usize::MAX` default end) is the same Python-style slice as on arrays -/
+theorem slice_string_spec (cs : List α) (i e : Option Int) (step : Nat)
+    (hlen : cs.length ≤ 18446744073709551615) :
+    sliceStrM cs i e step = sliceL cs i e step :=
+  sliceStrM_eq cs i e step hlen
+
+example : sliceStrM ['a', 'b', 'c', 'd', 'e'] (some 1) none 2 = ['b', 'd'] ∧
+    sliceStrM ['a', 'b', 'c'] (some (-2)) (some 9) 1 = ['b', 'c'] ∧
+    sliceStrM ['a', 'b', 'c'] (some 7) (some 2) 1 = [] := by decide
+
+/-- C10.5p `builtin_lines` (`join("\n", arr ++ [""])`) = every non-null line followed by a newline -/
+theorem lines_spec (nl : α) (items : List (Option (List α))) : linesM nl items = linesSpec nl items :=
+  linesM_eq nl items
+
+/-- C10.5q `deep_join_inner` (one output buffer threaded through the recursion) = concatenation of
+    the strings of the nested array in order; anything that is not a string or array is an error -/
+theorem deepJoin_spec (v : V) : deepJoinGo [] v = deepJoinSpec v := by
+  rw [deepJoinGo_eq]; cases deepJoinSpec v <;> simp
+
+/-- C10.5r `builtin_flatten_deep_array` (`process(value, &mut out)`) = the leaves in order -/
+theorem flattenDeep_spec (v : V) : Model.flattenDeep v = Spec.flattenDeep v := by
+  simp [Model.flattenDeep, flattenDeepGo_eq]
+
+example : deepJoinGo [] (.arr [.str "a", .arr [.str "b", .arr []], .str "c"]) = some ['a', 'b', 'c'] ∧
+    deepJoinGo [] (.arr [.str "a", .num 1]) = none ∧
+    Model.flattenDeep (.arr [.num 1, .arr [.arr [.num 2], .null]]) = [.num 1, .num 2, .null] := by
+  refine ⟨?_, ?_, ?_⟩ <;> simp [deepJoinGo, deepJoinGoL, Model.flattenDeep, flattenDeepGo, flattenDeepGoL]
+
+/-! ### 6. sort beyond the insertion-sort cut-off: the contract determines the result -/
+
+/-- C10.6a For a total key into a total preorder there is exactly one arrangement that is ordered by
+    key and stable.  Hence *any* implementation of `slice::sort_by` that meets its documented
+    contract (ordered, stable) returns what the modelled short-slice insertion sort returns: the
+    model is exact for arrays of every length, and the assumption about Rust's std shrinks to its
+    documentation. -/
+theorem sort_contract_determines {ord : κ → κ → Ordering} [TransCmp ord]
+    {key : α → Option κ} {cmp : κ → κ → Option Ordering} {k : α → κ}
+    (hk : ∀ x, key x = some (k x)) (hc : ∀ p q, cmp p q = some (ord p q)) (xs r : List α)
+    (hs : r.Pairwise (fun a b => (ord (k a) (k b)).isLE))
+    (hst : ∀ c, r.filter (fun a => ord (k a) c == .eq) = xs.filter (fun a => ord (k a) c == .eq)) :
+    sortByKeyM key cmp xs = some r :=
+  sortByKeyM_determined hk hc xs r hs hst
+
+/-- C10.6b in particular the native keyed sort equals the reference sort (core Lean's verified
+    stable merge sort) on every input -/
+theorem sort_eq_reference {ord : κ → κ → Ordering} [TransCmp ord]
+    {key : α → Option κ} {cmp : κ → κ → Option Ordering} {k : α → κ}
+    (hk : ∀ x, key x = some (k x)) (hc : ∀ p q, cmp p q = some (ord p q)) (xs : List α) :
+    sortByKeyM key cmp xs = some (sortSpec k ord xs) :=
+  sortByKeyM_eq_sortSpec hk hc xs
+
+example : sortByKeyM (fun (p : Int × String) => some p.1) (fun a b => some (compare a b))
+    [(2, "x"), (1, "a"), (2, "y"), (1, "b")] =
+    some (sortSpec Prod.fst compare [(2, "x"), (1, "a"), (2, "y"), (1, "b")]) :=
+  sort_eq_reference (fun _ => rfl) (fun _ _ => rfl) _
+
+/-- C10.6c the identity path uses the *unstable* sorts; there only "ordered permutation" is
+    documented, which still determines the result because the jsonnet comparison calls two values
+    equivalent only when they are equal -/
+theorem sort_unstable_determined {ord : κ → κ → Ordering} [TransCmp ord] (k : α → κ)
+    (hanti : ∀ a b, ord (k a) (k b) = .eq → a = b) (r1 r2 : List α)
+    (h1 : r1.Pairwise (fun a b => (ord (k a) (k b)).isLE))
+    (h2 : r2.Pairwise (fun a b => (ord (k a) (k b)).isLE)) (hp : r1.Perm r2) : r1 = r2 :=
+  sorted_perm_unique k hanti r1 r2 h1 h2 hp
+
+/-- the antisymmetry hypothesis of C10.6c holds for the jsonnet comparison of values -/
+theorem compare_eq_only_equal (a b : V) (h : cmpV a b = some .eq) : a = b := cmpV_eq a b h
+
+example : cmpV (.arr [.num 1, .str "a"]) (.arr [.num 1, .str "a"]) = some .eq := by decide
 
 end JrsVerif.StdArr
